@@ -20,7 +20,7 @@ impl Instant {
             }
             s.clock_ms += step;
             let ms = s.clock_ms;
-            s.event(|| format!("now {ms}"));
+            s.event_k([1, ms, 0, 0], || format!("now {ms}"));
             ms
         });
         Instant { ms }
